@@ -452,6 +452,11 @@ fn c03_scenarios(thorough: bool) -> Vec<Scenario> {
     let caps: &[usize] = if thorough { &[1, 2, 4] } else { &[1, 2] };
     for &cap in caps {
         for &n in ns {
+            // (Capacity 4 with four samples is 64 script pairs of its own:
+            // three samples there.)
+            if cap == 4 && n == 4 {
+                continue;
+            }
             let comps = compositions(n, cap);
             for w in &comps {
                 for r in &comps {
